@@ -5,6 +5,7 @@ package string_helper
 // Contracts for the verification framework in /verif (comment-only file, build tag `verif`).
 
 // trim(v): v without its group prefix "<group>/" (specification function, SMT-LIB strings)
+//@ pure strings.IndexRune strings.HasSuffix strings.Contains
 //@ pred HasGroup(v string) := strings.IndexRune(v, '/') >= 0
 //@ specfn trim(v string) string := ite(strings.IndexRune(v, '/') >= 0, v[strings.IndexRune(v, '/')+1:], v)
 
